@@ -336,7 +336,7 @@ func survivorsHold(s []*fx.ScriptedClient) bool {
 
 func TestFrpsChurn(t *testing.T) {
 	fx.Prelease(2)
-	fx.Run(t, fx.Spec[ChCase]{Prop: "C16", Name: "frps_churn", Quick: 320, Thorough: 2000, Gen: genCh, Run: runCh, ShrinkTime: "60s",
+	fx.Run(t, fx.Spec[ChCase]{Prop: "C16", Name: "frps_churn", Journal: true, Quick: 320, Thorough: 2000, Gen: genCh, Run: runCh, ShrinkTime: "60s",
 		Class: func(c ChCase) fx.Class {
 			ops := map[string]int{}
 			for _, w := range c.Workers {
